@@ -674,6 +674,9 @@ func c15ExecX(in []string) []string {
 }
 
 func c15Exec(in []string) []string {
+	if in[0] == "Y" {
+		return c15Alias(in)
+	}
 	switch in[0] {
 	case "X":
 		return c15ExecX(in)
@@ -1273,6 +1276,17 @@ func c15Exhaustive(emit func(in ...string), full bool) {
 
 func c15Gen(r *proto.Rng, n int, tier string, emit func(in ...string)) {
 	c15Exhaustive(emit, tier == "thorough")
+	// aliasing: the first delivered value must survive later calls
+	for _, codec := range []string{"b", "t"} {
+		for _, kind := range []string{"pbyt", "pnbyt", "pifByt", "pstr", "pifStr", "bin"} {
+			if codec == "t" && kind != "pstr" { // the text consumer stores into *string only
+				continue
+			}
+			for _, rounds := range []int{1, 3, 20} {
+				emit("Y", codec, kind, proto.B("first payload "+r.Bytes("abcdefgh", 8)), proto.B("SECOND PAYLOAD "+r.Bytes("ABCDEFGH", 12)), proto.N(rounds))
+			}
+		}
+	}
 	nj := n / 8
 	for i := 0; i < n-nj; i++ {
 		c15Case(r, tier, emit)
@@ -1285,4 +1299,59 @@ func c15Gen(r *proto.Rng, n int, tier string, emit func(in ...string)) {
 		}
 		emit("J", codec, shape, proto.N(r.Intn(1<<30)))
 	}
+}
+
+// c15Alias — stream Y <codec b|t> <kind> <content A> <content B> <rounds>
+//
+// "never alias": consume A into a first destination, then B into further destinations of the same
+// kind, then read the FIRST destination back: it must still hold A (delivered bytes must not share
+// storage with anything the codec reuses later).
+func c15Alias(in []string) []string {
+	codec, kind := in[1], in[2]
+	a, b := proto.UnB(in[3]), proto.UnB(in[4])
+	rounds := proto.UnN(in[5])
+	var cons runtime.Consumer
+	if codec == "t" {
+		cons = runtime.TextConsumer()
+	} else {
+		cons = runtime.ByteStreamConsumer()
+	}
+	mk := func() (interface{}, func() string) {
+		switch kind {
+		case "pbyt":
+			d := new([]byte)
+			return d, func() string { return string(*d) }
+		case "pnbyt":
+			d := new(c15Bytes)
+			return d, func() string { return string(*d) }
+		case "pifByt":
+			var d interface{} = []byte("x")
+			return &d, func() string {
+				if bs, ok := d.([]byte); ok {
+					return string(bs)
+				}
+				return fmt.Sprint(d)
+			}
+		case "pstr":
+			d := new(string)
+			return d, func() string { return *d }
+		case "pifStr":
+			var d interface{} = "x"
+			return &d, func() string { return fmt.Sprint(d) }
+		default:
+			d := new(c15Bin)
+			return d, func() string { return string(d.b) }
+		}
+	}
+	first, get := mk()
+	if err := cons.Consume(strings.NewReader(a), first); err != nil {
+		return []string{"ERR", proto.B(err.Error())}
+	}
+	for i := 0; i < rounds; i++ {
+		d, _ := mk()
+		if err := cons.Consume(strings.NewReader(b), d); err != nil {
+			return []string{"ERR", proto.B(err.Error())}
+		}
+	}
+	return []string{"KEPT", proto.B(get())}
 }
